@@ -1022,22 +1022,27 @@ func (self *Node) refreshState(readOnly bool) {
 			if fork := node.getFork(forkIndex); fork != nil {
 				if chunkIndex >= 0 {
 					if chunk := fork.getChunk(chunkIndex); chunk != nil {
+						verifRouteChunk(filename, uniquifier, chunk)
 						chunk.updateState(MetadataFileName(state), uniquifier)
 					} else {
+						verifUnrouted(filename)
 						util.LogInfo("runtime",
 							"WARNING: Journal update for unknown chunk %s.fork%s.chnk%d",
 							fqname, forkIndex, chunkIndex)
 					}
 				} else {
+					verifRouteFork(filename, uniquifier, state, fork)
 					fork.updateState(state, uniquifier)
 				}
 				updatedForks[fork] = struct{}{}
 			} else {
+				verifUnrouted(filename)
 				util.LogInfo("runtime",
 					"WARNING: Journal update for unknown fork %s.fork%s",
 					fqname, forkIndex)
 			}
 		} else {
+			verifUnrouted(filename)
 			util.LogInfo("runtime",
 				"WARNING: Journal update for unknown node %s (%s)",
 				fqname, filename)
